@@ -25,6 +25,9 @@ BSEL = param("bsel", 0)        # corpus files: which residue class of the token-
 if CORPUS:
     _items = None
     SK = skel.Skeleton(LANG, None, LABEL, text=dict(skel.corpus_files(LANG))[LABEL])
+elif LABEL == "x-bom-two":      # the canonical program `two` behind a byte-order mark (what reading a UTF-8-with-BOM file yields): positions must still be those of the text
+    _items = None
+    SK = skel.Skeleton(LANG, None, LABEL, text="\ufeff" + skel.Skeleton(LANG, dict(skel.programs(LANG, TIER))["two"], "two").text)
 else:
     _items = (skel.extra_programs(LANG)[LABEL] if LABEL.startswith("x-") else dict(skel.programs(LANG, TIER))[LABEL]) if LABEL else None
     SK = skel.Skeleton(LANG, _items, LABEL, comments=("col1" if LABEL.startswith("cmt1-") else "hostile" if LABEL.startswith("cmtx-") else LABEL.startswith("cmt-"))) if LABEL else None
@@ -256,6 +259,8 @@ def h_nocl(ell: int, g0: int, g1: int, g2: int, g3: int, g4: int, g5: int, g6: i
     """
     gs = [g0, g1, g2, g3, g4, g5, g6, g7, g8, g9]
     cs = DEFAULT_COLS
+    if SK.lex_mismatch:        # the marker is matched by LINE: if the real lex() places a token of this text elsewhere than the text does, markers hit the wrong function
+        return False
     toks, nl = _tokens(gs, cs, nocl_line=ell)
     ms = scan_file(toks, LANGUAGE)
     exp = _expected_from_base(nl, cs, ell)
